@@ -479,6 +479,8 @@ class Gen:
         if owner.kind == "opaque":
             choices.append("self_op")
         choices += ["param_op", "param_slice", "param_str", "static_str", "static_slice", "result_ref", "result_ref"]
+        if self.p.get("opt_borrowed_params"):
+            choices += ["opt_param_slice", "opt_param_struct"]
         ch = self.pick(choices)
         lifetimes = ["a"]
         if ch == "self_op":
@@ -498,6 +500,17 @@ class Gen:
             if other[0] == "prim" and not self.p["result_prim_err"]:
                 other = ("unit",)
             ret = ("result", ref, other, "std") if self.chance(0.5) else ("result", other, ref, "std")
+        elif ch == "opt_param_slice":
+            # the returned reference may borrow from an *optional* slice / string argument
+            inner = self.pick([("slice", self.pick(SLICE_PRIMS[:-1]), False, "a", "std"), ("str", "ustr", "a", "std")])
+            params = params + [("obs", ("opt", inner, "std"))]
+            ret = ("oref", self.pick(self.opaques).name, False, "a", True) if self.opaques else ("prim", "u8")
+            if not self.opaques:
+                lifetimes = []
+        elif ch == "opt_param_struct" and [s for s in self.structs if s.lifetimes] and self.opaques:
+            st = self.pick([s for s in self.structs if s.lifetimes])
+            params = params + [("obst", ("opt", ("struct", st.name), "std"))]
+            ret = ("oref", self.pick(self.opaques).name, False, "a", True)
         elif ch == "param_slice":
             pr = self.pick(SLICE_PRIMS[:-1])
             params = params + [("bs", ("slice", pr, False, "a", "std"))]
